@@ -123,4 +123,17 @@ example : csvRead (csvWrite [[97]] [[[49, 44, 50]]]) ≠ some ([[97]], [[[49, 44
 -- a single empty string cell makes the line vanish
 example : csvRead (csvWrite [[97]] [[[]], [[98]]]) = some ([[97]], [[[98]]]) := by decide
 
+-- the hypotheses of C13_csv_roundtrip_iff are satisfiable, and both sides of the equivalence occur:
+-- a delimiter inside a cell token (right side false) ⇒ the table is not read back
+example : csvRead (csvWrite [[97]] [[[49, 44, 50]]]) ≠ some ([[97]], [[[49, 44, 50]]]) := by
+  intro h
+  have := (C13_csv_roundtrip_iff [[97]] [[[49, 44, 50]]] (by decide) (by decide) (by decide)).mp h
+  revert this
+  decide
+-- no delimiter anywhere (right side true) ⇒ read back
+example : csvRead (csvWrite [[116], [120, 49]] [[[48, 46, 53], [49]]]) = some ([[116], [120, 49]], [[[48, 46, 53], [49]]]) :=
+  (C13_csv_roundtrip_iff [[116], [120, 49]] [[[48, 46, 53], [49]]] (by decide) (by decide) (by decide)).mpr (by decide)
+-- a delimiter inside a NAME changes the header (two columns read, one written)
+example : (csvRead (csvWrite [[97, 44, 98]] [])).map (·.1) = some [[97], [98]] := by decide
+
 end Fc.W.Wit13
